@@ -82,15 +82,17 @@ class IOWorld:
 
     def probe_readers(self):
         """reader outcome per (content, format, kind), each in a fresh process"""
-        jobs = [(c, g, k) for c in range(len(self.bytes)) for g in range(4) for k in range(4)]
+        jobs = [(c, g, k) for c in range(len(self.bytes)) for g in range(4) for k in range(5)]     # k = 4: info()
         def r(j):
             c, g, k = j; d = os.path.join(self.wd, "pr%d_%d_%d" % j); os.makedirs(d, exist_ok=True)
             with open(os.path.join(d, "r.in"), "wb") as fh: fh.write(self.bytes[c])
-            o = ints(hrun(self.hb, ["c17 11 %d %d" % (g, k)], d)[0])
+            o = ints(hrun(self.hb, ["c17 11 %d %d" % (g, k) if k < 4 else "c17 12 %d" % g], d)[0])
             shutil.rmtree(d, ignore_errors=True)
             return o[0] if o else 3
         with ThreadPoolExecutor(8) as ex:
-            self.rd = list(ex.map(r, jobs))
+            res = list(ex.map(r, jobs))
+        self.rd = [v for (c, g, k), v in zip(jobs, res) if k < 4]
+        self.inf = [v for (c, g, k), v in zip(jobs, res) if k == 4]
         self.nprobes = len(jobs)
 
     def wire(self):
@@ -103,7 +105,7 @@ def io_world_wire(W, sfx):
         h = list(b[:32]); w += [len(h)] + h
     w += [len(W.rd)] + W.rd + [len(W.wr)]
     for v, c in W.wr: w += [v, c]
-    w += [0]
+    w += [0, len(W.inf)] + W.inf
     return w
 
 # names: index -> (suffix class, nodir?)
